@@ -720,6 +720,34 @@ func ruleR9_5(w *World, r *Report) {
 			continue
 		}
 		lit := b0.Call.Args[len(b0.Call.Args)-2]
+		// ordering: everything above level 1 is retracted before this unit is written into the model
+		if cl := levelCleaner(w); cl != nil {
+			var clean ssa.CallInstruction
+			for _, cj := range callsIn(fn) {
+				if w.staticCalleeIs(cj, cl) && loopBlocks(fn, header)[cj.Block()] {
+					args := cj.Common().Args
+					if v, ok := constInt(args[len(args)-1]); ok && v == 1 {
+						clean = cj
+					}
+				}
+			}
+			okOrder := clean != nil && instrDominates(clean, b0)
+			if clean != nil {
+				allInstrs(fn, func(ins ssa.Instruction) {
+					st, ok := ins.(*ssa.Store)
+					if !ok || !loopBlocks(fn, header)[st.Block()] {
+						return
+					}
+					if ia, ok := st.Addr.(*ssa.IndexAddr); ok {
+						if _, ok := isFieldLoad(ia.X, "solver.Solver", "model"); ok && !instrDominates(clean, st) {
+							okOrder = false
+						}
+					}
+				})
+			}
+			r.Check(okOrder, "R9.5", w.FuncName(fn)+" retracts before binding", w.InstrPos(b0), "the retraction to level 1 dominates every write of the model in the iteration",
+				"a unit is written into the model before the bindings above level 1 are retracted: the retraction then leaves the old decision of that variable on the trail next to the new fact, and a later top-level conflict is not recognised")
+		}
 		skipped := map[string]bool{}
 		body := header.Succs[0]
 		exploreEdges(body, &pstate{phi: map[*ssa.Phi]ssa.Value{}, facts: map[string]string{}},
